@@ -2,7 +2,7 @@
 """rs2v: translate a straight-line integer subset of Rust into Gallina (Coq 8.16).
 
 Part of the trusted base (DESIGN.md section 9).  It is deliberately small: it parses
-the functions and constants named in tools/rs2v_targets.json out of /repo's *current*
+the functions and constants named in tools/rs2v.d/*.json out of /repo's *current*
 working tree and fails loudly on anything outside the subset, so that a source change it
 cannot read breaks the tie instead of being ignored.
 
@@ -1353,10 +1353,28 @@ def translate_module(repo, spec):
     return '\n'.join(out) + '\n', sigs, consts
 
 
+def load_targets(here):
+    """one JSON file per generated module in tools/rs2v.d/ (processed in name order, imports first)"""
+    import glob
+    mods = [json.load(open(p)) for p in sorted(glob.glob(os.path.join(here, 'rs2v.d', '*.json')))]
+    done, out = set(), []
+    while mods:
+        progress = False
+        for m in list(mods):
+            if all(i in done for i in m.get('imports', [])):
+                out.append(m)
+                done.add(m['module'])
+                mods.remove(m)
+                progress = True
+        if not progress:
+            raise SystemExit('rs2v.d: import cycle / missing import among ' + ', '.join(m['module'] for m in mods))
+    return {'modules': out}
+
+
 def main():
     repo = sys.argv[1] if len(sys.argv) > 1 else '/repo'
     here = os.path.dirname(os.path.abspath(__file__))
-    targets = json.load(open(os.path.join(here, 'rs2v_targets.json')))
+    targets = load_targets(here)
     gen_dir = os.path.join(here, '..', 'coq', 'Gen')
     os.makedirs(gen_dir, exist_ok=True)
     only = set(sys.argv[2:])
